@@ -537,3 +537,77 @@ Proof.
   change (hget (set_ip s0 (add32 (st_ip s0) n)) KUnion l) with (hget s0 KUnion l). rewrite Hh.
   rewrite (field_oob_traps _ _ Hl). eexists; split; reflexivity.
 Qed.
+
+(* an instruction that decodes (its opcode is in the table) is never answered with VM_ERR_INVALID_OPCODE *)
+Definition not_invalid (r : sres) : Prop := match r with SErr e _ => e <> E_INVALID_OPCODE | _ => True end.
+
+Lemma do_return_ni s fr frs b : not_invalid (do_return s fr frs b).
+Proof. unfold do_return. destruct (if _ <? _ then _ else _) as [r k]. destruct frs; [exact I|]. destruct b; exact I. Qed.
+Lemma do_call_ni m s callee clos k : not_invalid (do_call m s callee clos k).
+Proof. unfold do_call. destruct (nth_N _ _); [|simpl; discriminate]. destruct (_ <=? _); [simpl; discriminate|exact I]. Qed.
+Lemma cmp_op_ni s f : not_invalid (cmp_op s f).
+Proof. unfold cmp_op. destruct (pop (st_stack s)) as [b k1]. destruct (pop k1) as [a k2]. exact I. Qed.
+Lemma arith_op_ni c s o : not_invalid (arith_op c s o).
+Proof.
+  unfold arith_op. destruct (pop (st_stack s)) as [b k1]. destruct (pop k1) as [a k2].
+  destruct (if o =? 36 then a else as_arith a) as [| | | | | |ka ?| ]; destruct (if o =? 36 then b else as_arith b) as [| | | | | |kb ?| ];
+  try destruct ka; try destruct kb; cbn [is_arr orb];
+  repeat match goal with |- context [if ?b then _ else _] => destruct b end;
+  first [exact I | simpl; discriminate].
+Qed.
+
+Lemma exec_instr_not_invalid c m s0 fr frs ip i n : table (op i) <> None -> not_invalid (exec_instr c m s0 fr frs ip i n).
+Proof.
+  intros HT. unfold exec_instr.
+  set (s := set_ip s0 (add32 (st_ip s0) n)). clearbody s.
+  remember (st_stack s) as k eqn:Ek.
+  destruct (op i) as [|p]; [|repeat match goal with |- context [match ?q with xI _ => _ | xO _ => _ | xH => _ end] => is_var q; destruct q end].
+  all: try exact I.
+  all: try (exfalso; apply HT; vm_compute; reflexivity).
+  all: try (simpl; discriminate).
+  all: try apply arith_op_ni.
+  all: try apply cmp_op_ni.
+  all: try apply do_return_ni.
+  all: repeat match goal with
+       | |- context [pop ?kk] => is_var kk; destruct kk as [|? kk]; cbn [pop]
+       | |- context [match ?kk with [] => _ | _ :: _ => _ end] => is_var kk; destruct kk as [|? kk]
+       | |- context [match ?v with VVoid => _ | VInt _ => _ | VU8 _ => _ | VBool _ => _ | VStr _ => _ | VEnum _ => _ | VRef _ _ => _ | VOpaque _ => _ end] =>
+           is_var v; destruct v
+       | |- context [match ?kd with KArr => _ | KStruct => _ | KUnion => _ | KTuple => _ | KClos => _ end] => is_var kd; destruct kd
+       end.
+  all: try exact I.
+  all: try (simpl; discriminate).
+  all: repeat match goal with
+       | |- context [hget ?a ?b ?d] => destruct (hget a b d) as [[]|]
+       | |- context [fr_clos ?f] => destruct (fr_clos f)
+       end.
+  all: try exact I.
+  all: try apply do_call_ni.
+  all: repeat match goal with |- context [take_args ?a ?b] => destruct (take_args a b) as [? ?] end.
+  all: cbv beta iota zeta delta [alloc].
+  all: repeat match goal with
+       | |- context [match ?a with AElem _ => _ | AVoid => _ | ANoop => _ | ATrap => _ end] => destruct a
+       | |- context [match ?a with PCrash => _ | PUnmod => _ | POk _ => _ end] => destruct a
+       | |- context [match get_bot ?a ?b with Some _ => _ | None => _ end] => destruct (get_bot a b)
+       | |- not_invalid (if ?b then _ else _) => destruct b
+       end.
+  all: try exact I.
+  all: try (simpl; discriminate).
+Qed.
+
+Lemma decode_in_table T bs i n : decode T bs = Some (i, n) -> T (op i) <> None.
+Proof.
+  unfold decode. destruct bs as [|o r]; [discriminate|]. destruct (T o) eqn:E; [|discriminate].
+  destruct (dec_args l r) as [[vs n']|]; [|discriminate]. intros [= <- <-]. simpl. congruence.
+Qed.
+Lemma fetch_ok_in_table m start avail i n : fetch m start avail = FOk i n -> table (op i) <> None.
+Proof.
+  unfold fetch.
+  destruct (avail =? 0); [discriminate|].
+  destruct (m_cap m <=? start); [discriminate|].
+  destruct ((N.of_nat (length (m_code m)) <=? start) && negb (m_cap m =? 4096)); [discriminate|].
+  destruct (table _) as [ks|]; [|discriminate].
+  destruct (m_cap m <? _); [discriminate|].
+  destruct ((N.of_nat (length (m_code m)) <? _) && negb (m_cap m =? 4096)); [discriminate|].
+  destruct (decode table _) as [[i' n']|] eqn:E; [|discriminate]. intros [= <- <-]. eapply decode_in_table; eassumption.
+Qed.
